@@ -44,7 +44,7 @@
 #define STR(x) STR_HELPER(x)
 
 static void number_to_string_b(JanetBuffer *buffer, double x) {
-    janet_buffer_ensure(buffer, buffer->count + BUFSIZE, 2);
+    janet_buffer_extra(buffer, BUFSIZE);
     const char *fmt = (x == floor(x) &&
                        x <= JANET_INTMAX_DOUBLE &&
                        x >= JANET_INTMIN_DOUBLE) ? "%.0f" : ("%." STR(DBL_DIG) "g");
@@ -103,7 +103,7 @@ static void integer_to_string_b(JanetBuffer *buffer, int32_t x) {
 /* Returns a string description for a pointer. Truncates
  * title to 32 characters */
 static void string_description_b(JanetBuffer *buffer, const char *title, void *pointer) {
-    janet_buffer_ensure(buffer, buffer->count + BUFSIZE, 2);
+    janet_buffer_extra(buffer, BUFSIZE);
     uint8_t *c = buffer->data + buffer->count;
     int32_t i;
     union {
@@ -196,7 +196,8 @@ static void janet_escape_string_b(JanetBuffer *buffer, const uint8_t *str) {
 static void janet_escape_buffer_b(JanetBuffer *buffer, JanetBuffer *bx) {
     if (bx == buffer) {
         /* Ensures buffer won't resize while escaping */
-        janet_buffer_ensure(bx, bx->count + 5 * bx->count + 3, 1);
+        if (bx->count > (INT32_MAX - 3) / 5) janet_panic("buffer overflow");
+        janet_buffer_extra(bx, 5 * bx->count + 3);
     }
     janet_buffer_push_u8(buffer, '@');
     janet_escape_string_impl(buffer, bx->data, bx->count);
@@ -391,7 +392,7 @@ static int print_jdn_one(struct pretty *S, Janet x, int depth) {
             janet_description_b(S->buffer, x);
             break;
         case JANET_NUMBER:
-            janet_buffer_ensure(S->buffer, S->buffer->count + BUFSIZE, 2);
+            janet_buffer_extra(S->buffer, BUFSIZE);
             double num = janet_unwrap_number(x);
             if (isnan(num)) return 1;
             if (isinf(num)) return 1;
@@ -538,7 +539,8 @@ static void janet_pretty_one(struct pretty *S, Janet x, int is_dict_value) {
                 janet_buffer_push_cstring(S->buffer, color);
             }
             if (janet_checktype(x, JANET_BUFFER) && janet_unwrap_buffer(x) == S->buffer) {
-                janet_buffer_ensure(S->buffer, S->buffer->count + S->bufstartlen * 4 + 3, 1);
+                if (S->bufstartlen > (INT32_MAX - 3) / 4) janet_panic("buffer overflow");
+                janet_buffer_extra(S->buffer, S->bufstartlen * 4 + 3);
                 janet_buffer_push_u8(S->buffer, '@');
                 janet_escape_string_impl(S->buffer, S->buffer->data, S->bufstartlen);
             } else {
